@@ -762,7 +762,9 @@ def judge(c, impl):
                         continue
                     cn = canonical(i)
                     if cn not in wal:
-                        fault = f"{n!r} scans to id {i} but {cn!r} does not exist"
+                        # a foreign name without its canonical sibling: whether the implementation treats it as
+                        # eligible (and fails on it) or ignores it is not a fault of the archive directory
+                        continue
                     elif wal[cn] is None:
                         fault = f"{cn!r} is a directory"
                     elif read_file(wal[cn]) is None:
